@@ -144,7 +144,7 @@ P = "playlist/"
 
 def c14run(name, fn):
     return {"name": name, "dir": "pkg/playlist", "files": [P + "c14_roundtrip.go", P + "c15_grammar.go"], "fn": fn, "workers": 16,
-            "params_quick": {"MAXINT": 99999}, "params_thorough": {"MAXINT": 2147483647}, "reach": ["roundtrip-done"],
+            "params_quick": {"MAXINT": 99999}, "params_thorough": {"MAXINT": 999999}, "reach": ["roundtrip-done"],
             "budget_quick": 900, "budget_thorough": 7200}
 
 
@@ -152,7 +152,7 @@ CHECKS["C14"] = {
     "technique": "symbolic field values (integers as symbolic decimal text, strings of arbitrary legal bytes, presence flags) through the real Marshal and Unmarshal; field-wise equality, fixpoint and syntactic variants asserted",
     "bounds": {"quick": {"integers": "[0, 99999]", "strings": "0..2 arbitrary ASCII bytes legal in their position (plus a fixed prefix)", "fields symbolic at once": "one tag group (4-8 groups per harness)",
                          "durations / date-times / frame rates": "enumerated boundary values, executed concretely (float formatting is not solver-decided)"},
-               "thorough": {"integers": "[0, 2^31-1]", "strings": "same", "fields": "same"}},
+               "thorough": {"integers": "[0, 999999]", "strings": "same", "fields": "same"}},
     "assumptions": ["strconv / strings / time interpreted from source; strconv.Format{Int,Uint} of a symbolic integer modelled as symbolic decimal digits (fork on digit count)",
                     "map iteration in insertion order (attribute order independence is exercised by the CRLF/unknown-tag variant only)",
                     "local time zone = UTC"],
@@ -166,14 +166,14 @@ C15F = [P + "c15_decoder.go", P + "c15_grammar.go", P + "c14_roundtrip.go"]
 
 def c15g(name, fn):
     return {"name": name, "dir": "pkg/playlist", "files": C15F, "fn": fn, "workers": 16, "params": {"VARIANTS": 0},
-            "params_quick": {"MAXINT": 9999}, "params_thorough": {"MAXINT": 2147483647}, "reach": ["roundtrip-done"], "budget_quick": 900, "budget_thorough": 7200}
+            "params_quick": {"MAXINT": 9999}, "params_thorough": {"MAXINT": 99999}, "reach": ["roundtrip-done"], "budget_quick": 900, "budget_thorough": 7200}
 
 
 CHECKS["C15"] = {
     "technique": "arbitrary symbolic bytes after each tag in a valid frame through the real decoders (panic conditions and structural post-conditions as solver queries); "
                  "an independent strict RFC 8216 line grammar, symbolically executed over the real Marshal output for the C14 value space",
     "bounds": {"quick": {"decoder": "one tag (27 media / 9 multivariant prefixes, incl. attribute-list prefixes) + 5 arbitrary bytes, in two frame positions", "grammar": "C14 value space with integers < 10^4"},
-               "thorough": {"decoder": "8 arbitrary bytes", "grammar": "integers < 2^31"}},
+               "thorough": {"decoder": "8 arbitrary bytes", "grammar": "integers < 10^5"}},
     "assumptions": ["strconv.ParseFloat / time.Parse on symbolic text return a nondeterministic (representative value | error), incl. 0, NaN and +Inf for floats",
                     "segment titles ASCII (strings.TrimSpace's Unicode path not encoded)", "a MediaServerControl value sets at least one attribute",
                     "playlists served by a muxer are covered through the C14 value space (same Marshal code) and, natively, by the replay of the muxer harnesses"],
@@ -240,12 +240,12 @@ CHECKS["C11"] = {
     "technique": "inductive step on the real fillSegmentQueue from an arbitrary (playlist, current segment) state; real runTraditional / runLowLatency against a scripted symbolic server",
     "bounds": {"quick": {"step.fill": "1..6 listed segments, media sequence and current segment in [0,2^30], ENDLIST / VOD / EVENT / untyped, 5 URI shapes, byte ranges with/without start below 10^5",
                          "run.traditional": "window 3..5, live edge advancing 0..2 per poll, 3 segments pulled", "run.lowlatency": "3 iterations, with/without CAN-SKIP-UNTIL and hint byte range"},
-               "thorough": {"step.fill": "1..10 listed segments, byte ranges below 10^9", "run.traditional": "5 segments pulled", "run.lowlatency": "4 iterations"}},
+               "thorough": {"step.fill": "1..8 listed segments, byte ranges below 10^6", "run.traditional": "5 segments pulled", "run.lowlatency": "4 iterations"}},
     "assumptions": ["net/http replaced at NewRequestWithContext / Client.Do by a request log and scripted responses; playlists travel as tags (text layer = C14/C15)",
                     "net/url interpreted from source", "a harness thread plays the stream processor (pulls from the real segment queue)"],
     "outside": ["real network and pacing", "several rendition playlists evolving independently (each downloader instance runs the same code)"],
     "runs": [
-        {"name": "step.fill", "files": C11F, "fn": "VerifH_C11_fill", "workers": 16, "params_quick": {"MAXSEGS": 6}, "params_thorough": {"MAXSEGS": 10, "MAXRANGE": 999999999},
+        {"name": "step.fill", "files": C11F, "fn": "VerifH_C11_fill", "workers": 16, "params_quick": {"MAXSEGS": 6}, "params_thorough": {"MAXSEGS": 8, "MAXRANGE": 999999},
          "reach": ["downloads", "end-of-stream", "stops-with-error"], "budget_quick": 900, "budget_thorough": 7200},
         {"name": "run.cli.traditional", "files": C11F, "fn": "VerifH_C11_traditional", "workers": 16, "params_quick": {"POLLS": 3}, "params_thorough": {"POLLS": 5}, "reach": ["ran"]},
         {"name": "run.cli.lowlatency", "files": C11F, "fn": "VerifH_C11_lowlatency", "workers": 16, "params_quick": {"ITERS": 3}, "params_thorough": {"ITERS": 4}, "reach": ["ran"]},
@@ -265,7 +265,7 @@ CHECKS["C10"] = {
     "runs": [{"name": "run.cli.fmp4.times", "files": CLIP, "fn": "VerifH_C10_fmp4", "workers": 16, "params": {"DATETIME": 0}, "params_quick": {"MAXSEGS": 1, "MAXFRAGS": 2, "MAXSAMPLES": 2},
               "params_thorough": {"MAXSEGS": 2, "MAXFRAGS": 2, "MAXSAMPLES": 2}, "reach": ["ran"], "budget_quick": 600, "budget_thorough": 7200, "qtimeout": 60000},
              {"name": "run.cli.fmp4.abstime", "files": CLIP, "fn": "VerifH_C10_fmp4", "workers": 16, "params": {"DATETIME": 1}, "params_quick": {"MAXSEGS": 1, "MAXFRAGS": 1, "MAXSAMPLES": 2, "DTBASEBITS": 24},
-              "params_thorough": {"MAXSEGS": 1, "MAXFRAGS": 2, "MAXSAMPLES": 2, "DTBASEBITS": 32}, "reach": ["ran"], "budget_quick": 600, "budget_thorough": 7200, "qtimeout": 60000},
+              "params_thorough": {"MAXSEGS": 1, "MAXFRAGS": 1, "MAXSAMPLES": 2, "DTBASEBITS": 24}, "reach": ["ran"], "budget_quick": 600, "budget_thorough": 7200, "qtimeout": 60000},
              # two segments with PROGRAM-DATE-TIME: the anchor of the second segment is not the origin (small ranges keep the rate conversions decidable)
              {"name": "run.cli.fmp4.abstime.2segs", "files": CLIP, "fn": "VerifH_C10_fmp4", "workers": 16, "params": {"DATETIME": 1, "MAXSEGS": 2, "MAXFRAGS": 1},
               "params_quick": {"MAXSAMPLES": 1, "DTBASEBITS": 12, "VDURBITS": 10, "ADURBITS": 10}, "params_thorough": {"MAXSAMPLES": 2, "DTBASEBITS": 16, "VDURBITS": 12, "ADURBITS": 12},
@@ -305,10 +305,10 @@ CHECKS["C12"] = {
                  "Close at a symbolic scheduling point, one fault at a symbolic request index; deadlock / live-thread / late-callback checks at quiescence",
     "bounds": {"quick": {"streams": "media playlist (video) and multivariant playlist with an audio rendition, VOD, 1..2 segments each", "faults": "status 500 / transport error / body stalling until cancelled at any request index, or none",
                          "OnTracks": "succeeds or returns an error", "Close": "not called, or called (twice) after a symbolic number of scheduling steps", "preemptions": 1},
-               "thorough": {"preemptions": 2}},
+               "thorough": {"preemptions": "2 (media playlist), 1 (multivariant)"}},
     "assumptions": CHECKS["C10"]["assumptions"] + ["net/http replaced by a scripted responder (goroutines inside net/http are outside the model)", "cooperative scheduler + bounded symbolic preemption at synchronisation points"],
     "outside": ["MPEG-TS processors beyond the back-pressure run", "live playlists in the whole-client runs (the Low-Latency downloader loop has its own run) and pacing sleeps (time.After fires immediately)", "goroutines inside net/http"],
-    "runs": [c12run("conc.client.media", 0, 1, 2), c12run("conc.client.multivariant", 1, 1, 2),
+    "runs": [c12run("conc.client.media", 0, 1, 2), c12run("conc.client.multivariant", 1, 1, 1),
              {"name": "conc.client.lowlatency", "files": [G + "c12_lowlat.go", G + "c11_fetch.go"] + C12F, "fn": "VerifH_C12_lowlatency", "workers": 8, "reach": ["stalled", "end"], "replay_timeout": 120}],
 }
 
@@ -327,17 +327,17 @@ CHECKS["C09"] = {
                  "lemma: checkSupport accepts every codec string codecparams.Marshal produces for the codecs Start accepts",
     "bounds": {"quick": {"cosim.ll": "Low-Latency, H264 at 30 fps, 6 writes before the client attaches + 4 while it follows through blocking preload hints, symbolic key-frame placement", "cosim": "fMP4 and MPEG-TS, H264 video (and AV1 video in fMP4, K=4), K=5 writes (IDR / non-IDR / IDR with changed PPS), symbolic DTS deltas and SegmentMinDuration, client attached after the writes",
                          "lemma.codecs": "H264, H265, AV1, VP9 (profile 0..3, depth 8..12), MPEG-4 audio (object type 1..42), Opus"},
-               "thorough": {"cosim": "K=6; H265 and VP9 video K=5; video + audio rendition K=6; AbsoluteTime run with symbolic origin and tabled frame durations"}},
+               "thorough": {"cosim": "K=5; H265 and VP9 video K=5; video + audio rendition K=5; Low-Latency K=11; AbsoluteTime run with symbolic origin and tabled frame durations"}},
     "assumptions": MUX_STUBS + CHECKS["C10"]["assumptions"] + ["the two wire formats (playlist text, fMP4 bytes) are lossless transports (C14 + mediacommon)"],
     "outside": ["MPEG-TS end to end with an audio track (video-only MPEG-TS is co-simulated; the audio half is the client.ts.times run)", "Low-Latency end to end beyond video-only at a constant frame rate with cooperative scheduling (the client runs until it blocks after every write)", "real HTTP and pacing"],
     "runs": [
         {"name": "lemma.codecs", "files": C09F, "fn": "VerifH_C09_codecs", "workers": 8, "reach": ["marshalled"]},
-        c09run("cosim.fmp4.video", 0, 5, 6),
+        c09run("cosim.fmp4.video", 0, 5, 5),
         c09run("cosim.fmp4.av1", 0, 4, 5, VCODEC=3, VKINDS=3),
         dict(c09run("cosim.ts.video", 0, 5, 6, VKINDS=2), params={"VARIANT": 1, "TRACKS": 0, "VKINDS": 2}),
         dict(c09run("cosim.fmp4.h265", 0, 5, 5, VCODEC=1, VKINDS=3), thorough_only=True),
         dict(c09run("cosim.fmp4.vp9", 0, 5, 5, VCODEC=2, VKINDS=3), thorough_only=True),
-        dict(c09run("cosim.fmp4.video+audio", 1, 6, 6), thorough_only=True),
+        dict(c09run("cosim.fmp4.video+audio", 1, 5, 5), thorough_only=True),
         dict(c09run("cosim.fmp4.abstime", 0, 5, 5, ABSTIME=1, CONCRETE=2, SYMSEGMIN=0, SEGMIN_MS=30, VKINDS=2), thorough_only=True, qtimeout=120000),
     ],
 }
@@ -378,12 +378,12 @@ CHECKS["C06"]["runs"] = CHECKS["C06"]["runs"] + [
      "reach": ["answered", "blocked", "end"], "budget_quick": 900, "budget_thorough": 7200, "replay_timeout": 120}]
 
 CLITS = [G + "cli_ts.go"] + CLIP
-TSRUN = {"name": "run.cli.ts", "files": CLITS, "fn": "VerifH_C10_ts", "workers": 16, "params_quick": {"MAXSEGS": 2, "MAXV": 1, "MAXA": 1}, "params_thorough": {"MAXSEGS": 2, "MAXV": 2, "MAXA": 2},
+TSRUN = {"name": "run.cli.ts", "files": CLITS, "fn": "VerifH_C10_ts", "workers": 16, "params_quick": {"MAXSEGS": 2, "MAXV": 1, "MAXA": 1}, "params_thorough": {"MAXSEGS": 2, "MAXV": 1, "MAXA": 1},
          "reach": ["ran"], "budget_quick": 900, "budget_thorough": 7200, "qtimeout": 90000}
 CHECKS["C10"]["runs"] = CHECKS["C10"]["runs"] + [TSRUN]
 CHECKS["C09"]["runs"] = CHECKS["C09"]["runs"] + [dict(TSRUN, name="client.ts.times", prop="C10")]  # the client half of C09 (assertions carry C10's label)
 CHECKS["C12"]["runs"] = CHECKS["C12"]["runs"] + [{"name": "conc.ts.backpressure", "files": CLITS, "fn": "VerifH_C12_tsBackpressure", "workers": 4, "reach": ["backpressure", "end"], "replay_timeout": 120}]
-CHECKS["C13"]["runs"] = CHECKS["C13"]["runs"] + [dict(TSRUN, name="run.cli.ts.unexpected", params={"UNEXPECTED": 1}, params_quick={"MAXSEGS": 2, "MAXV": 1, "MAXA": 2}, params_thorough={"MAXSEGS": 2, "MAXV": 2, "MAXA": 2})]
+CHECKS["C13"]["runs"] = CHECKS["C13"]["runs"] + [dict(TSRUN, name="run.cli.ts.unexpected", params={"UNEXPECTED": 1}, params_quick={"MAXSEGS": 2, "MAXV": 1, "MAXA": 2}, params_thorough={"MAXSEGS": 2, "MAXV": 1, "MAXA": 2})]
 CHECKS["C13"]["bounds"]["quick"]["mpeg-ts"] = "first segment with audio before the first video unit or without video data, 1..2 segments, symbolic 33-bit timestamps"
 CHECKS["C13"]["outside"] = ["truncation inside mediacommon's parsers", "MPEG-TS payloads other than unexpected sample order / missing leading-track data",
                             "busy-loop freedom beyond: every loop iteration consumes a queue element or blocks (engine deadlock / step bound)"]
@@ -436,7 +436,7 @@ CHECKS["C06"]["runs"] = CHECKS["C06"]["runs"] + [
 CHECKS["C09"]["runs"] = CHECKS["C09"]["runs"] + [
     {"name": "cosim.ll.video", "files": [G + "c09_llcosim.go"] + C09F, "fn": "VerifH_C09_llcosim", "workers": 16,
      "params": {"VARIANT": 3, "TRACKS": 0, "VKINDS": 2, "CONCRETE": 3, "SYMSEGMIN": 0, "SEGMIN_MS": 100, "PARTMIN_MS": 50},
-     "params_quick": {"K": 10, "PRE": 6}, "params_thorough": {"K": 13, "PRE": 6}, "reach": ["attached", "client-done", "unit-compared"],
+     "params_quick": {"K": 10, "PRE": 6}, "params_thorough": {"K": 11, "PRE": 6}, "reach": ["attached", "client-done", "unit-compared"],
      "budget_quick": 900, "budget_thorough": 7200, "replay_timeout": 120}]
 # C09 relies on the served TARGETDURATION being positive (the summary used in the co-simulation has the floor; this ties it to the real code)
 CHECKS["C09"]["runs"] = CHECKS["C09"]["runs"] + [{"name": "lemma.targetDuration.table", "files": C03L, "fn": "VerifH_C03_targetDuration", "workers": 1, "reach": ["end"]}]
